@@ -5,6 +5,7 @@ all interleavings of pacer ticks, completions, consumption, Stop calls, pacer-st
 and targeter errors; any initial/max worker counts; no depth bound.
 -/
 import Vegeta.Proofs.AttackInv
+import Vegeta.Proofs.AttackLive
 import Vegeta.Model.Pump
 import Vegeta.Extracted.Facts
 namespace Vegeta.Props.C02
@@ -95,6 +96,27 @@ a call was made. -/
 theorem stop_closed_iff_called (h : Reachable w m d s) : s.stopClosed = true ↔ s.stopReturns.count true = 1 := by
   have dl := deliv_reachable h
   rw [dl.stop1]; by_cases hc : s.stopClosed <;> simp [hc]
+
+/-! #### the attack ends -/
+
+/-- **Once the main loop has left its loop (pacer stop, deadline, targeter failure or Stop seen)
+the attack ends**: (1) until the terminal state some goroutine of the attack or the consumer
+always has an enabled step; (2) every such step strictly decreases a natural-number measure, so
+any run of the attack's goroutines from that point has at most `mu s` steps — the clock and
+external Stop calls cannot add to it. Under the sole assumption that enabled goroutines are
+eventually scheduled and the caller keeps receiving, the channel is closed and `done` reached. -/
+theorem closing_terminates (h : Reachable w m d s) (hcl : closing s.pc = true) :
+    (s.pc ≠ .done → ∃ l s', isEnv l = false ∧ step s l = some s') ∧
+    (∀ ls s', (∀ l ∈ ls, isEnv l = false) → run s ls = some s' → ls.length + mu s' ≤ mu s) :=
+  ⟨fun hnd => closing_not_stuck s (core_reachable h) hcl hnd,
+   fun ls s' hall hr => closing_run_bounded ls s s' h hcl hall hr⟩
+
+/-- **A raised stop is seen at the next send**: with the stop channel closed the main loop, when
+it reaches its `select`, can take the stop branch and cannot add a worker. -/
+theorem stop_seen_at_send (hpc : s.pc = .trySend ∨ s.pc = .blockSend) (hst : s.stopClosed = true) :
+    (∃ s', step s .seeStop = some s' ∧ s'.pc = .closeTicks) ∧ step s .spawn = none := by
+  refine ⟨⟨{ s with pc := .closeTicks }, by simp [step, hpc, hst], rfl⟩, ?_⟩
+  simp [step, hst]
 
 /-! #### the shape `Stop` had before the repair: check, then close — two callers can both win -/
 
